@@ -220,3 +220,110 @@ def dispatch(ctx, fs, v):
     # the module-level name is bound to the last definition's wrapper
     last = max(versioned, key=lambda f: f.node.lineno)
     return (None, last.version_window[2])
+
+
+class Pipeline(object):
+    """Value-based model of placement.deploy:deploy.
+
+    app_var     the variable the function returns
+    values      local name -> sorted dotted values assigned to it (the
+                called function for call values, 'None' for None)
+    assigns     local name -> Assign nodes
+    base        Assign node 'app = PlacementHandler(...)'
+    direct      [(Assign, callee values, Call)] for 'app = X(app, ...)'
+                outside the loop, in source order
+    loop        the For statement wrapping with a tuple of names
+    order       [(name, values)] of the tuple, inside-out
+    loop_ok     body is 'app = m(app)' guarded only by the truth of m
+    ret_ok      single return of app_var dominated by the loop
+    """
+
+    def __init__(self, ctx):
+        prog = self.prog = ctx.prog
+        f = self.func = prog.func('placement.deploy:deploy')
+        self.assigns = {}
+        self.values = {}
+        for n in own_nodes(f.node):
+            if isinstance(n, ast.Assign) and len(n.targets) == 1 and \
+                    isinstance(n.targets[0], ast.Name):
+                self.assigns.setdefault(n.targets[0].id, []).append(n)
+        for k, lst in self.assigns.items():
+            vs = set()
+            for a in lst:
+                v = a.value
+                if isinstance(v, ast.Constant) and v.value is None:
+                    vs.add('None')
+                    continue
+                e = v.func if isinstance(v, ast.Call) else v
+                vs.add(prog.dotted(f.module, e, f) or src(e))
+            self.values[k] = sorted(vs)
+        rets = [n for n in own_nodes(f.node) if isinstance(n, ast.Return)]
+        self.app_var = rets[0].value.id if len(rets) == 1 and isinstance(
+            rets[0].value, ast.Name) else None
+        app = self.app_var
+        self.base = None
+        self.direct = []
+        self.loop = None
+        self.order = []
+        self.loop_ok = False
+        for a in self.assigns.get(app, []):
+            v = a.value
+            if not isinstance(v, ast.Call):
+                continue
+            if any(isinstance(x, ast.Name) and x.id == app
+                   for x in v.args[:1]):
+                callee = self._vals(v.func)
+                self.direct.append((a, callee, v))
+            elif self.base is None:
+                self.base = a
+        for lp in [n for n in own_nodes(f.node) if isinstance(n, ast.For)]:
+            if not (isinstance(lp.iter, (ast.Tuple, ast.List)) and
+                    isinstance(lp.target, ast.Name)):
+                continue
+            wraps = [a for a, _c, v in self.direct
+                     if isinstance(v.func, ast.Name)
+                     and v.func.id == lp.target.id and len(v.args) == 1
+                     and not v.keywords and _inside(a, lp)]
+            if not wraps:
+                continue
+            self.loop = lp
+            self.order = [(x.id, self.values.get(x.id, [x.id]))
+                          for x in lp.iter.elts if isinstance(x, ast.Name)]
+            guards = [n for n in own_nodes_of(lp) if isinstance(n, ast.If)]
+            self.loop_ok = len(self.order) == len(lp.iter.elts) and all(
+                isinstance(g.test, ast.Name) and g.test.id == lp.target.id
+                for g in guards)
+            self.direct = [d for d in self.direct if d[0] not in wraps]
+        g = cfgmod.cfg_of(f)
+        self.ret_ok = bool(self.loop is not None and self.app_var and
+                           g.dominates(self.loop, rets[0]))
+        self.cfg = g
+
+    def _vals(self, e):
+        f = self.func
+        if isinstance(e, ast.Name) and e.id in self.values:
+            return self.values[e.id]
+        return [self.prog.dotted(f.module, e, f) or src(e)]
+
+    def position(self, value):
+        """Index in the loop order of the middleware holding ``value``."""
+        for i, (_n, vs) in enumerate(self.order):
+            if value in vs:
+                return i
+        return None
+
+
+def _inside(node, anc):
+    cur = getattr(node, '_parent', None)
+    while cur is not None:
+        if cur is anc:
+            return True
+        cur = getattr(cur, '_parent', None)
+    return False
+
+
+def pipeline(ctx):
+    p = getattr(ctx, '_pipeline', None)
+    if p is None:
+        p = ctx._pipeline = Pipeline(ctx)
+    return p
